@@ -1108,4 +1108,179 @@ theorem alGet_mergeMeta (old new : List (String × Int)) (hn : (new.map (·.1)).
       have hef : (e.1 == f) = false := by simpa using hf
       simp [alGet, List.find?_cons, hef]
 
+
+/-! ### reads see the last write: the default collection is a map from keys to vectors -/
+
+/-- the map semantics of every operation, as seen by `get_embedding` -/
+def specStep (m : String → Option (List Int)) : Op → (String → Option (List Int))
+  | .store key v => if v.isEmpty then m else fun k => if k = key then some v else m k
+  | .storeMeta key v _ => if v.isEmpty then m else fun k => if k = key then some v else m k
+  | .delete key => fun k => if k = key then none else m k
+  | .batchDelete keys => fun k => if k ∈ keys then none else m k
+  | .clear => fun _ => none
+  | .batchStore inputs =>
+    if inputs.any (fun e => e.2.isEmpty) then m
+    else fun k => match inputs.reverse.find? (fun e => e.1 == k) with
+      | some e => some e.2
+      | none => m k
+  | _ => m
+
+theorem alGet_alDel_ne {β : Type} (m : List (String × β)) (k k' : String) (h : k' ≠ k) :
+    alGet (alDel m k) k' = alGet m k' := by
+  induction m with
+  | nil => rfl
+  | cons e es ih =>
+    simp only [alGet, alDel, List.filter_cons] at ih ⊢
+    by_cases he : (e.1 == k) = true
+    · have hek : e.1 = k := by simpa using he
+      have hk' : (e.1 == k') = false := by rw [hek]; simpa using (Ne.symm h)
+      simp only [he, Bool.not_true, Bool.false_eq_true, ite_false, List.find?_cons, hk']
+      exact ih
+    · simp only [he, Bool.not_false, ite_true, List.find?_cons]
+      by_cases hk' : (e.1 == k') = true
+      · simp [hk']
+      · simp only [hk']; exact ih
+
+theorem alGet_none_of_not_has {β : Type} (m : List (String × β)) (k : String) (h : alHas m k = false) :
+    alGet m k = none := by
+  simp only [alGet, Option.map_eq_none_iff, List.find?_eq_none]
+  intro e he hk
+  have : alHas m k = true := by
+    simp only [alHas, List.any_eq_true]; exact ⟨e, he, hk⟩
+  rw [h] at this; cases this
+
+theorem alGet_foldl_alDel {β : Type} (ks : List String) (m : List (String × β)) (k : String) :
+    alGet (ks.foldl alDel m) k = if k ∈ ks then none else alGet m k := by
+  induction ks generalizing m with
+  | nil => simp
+  | cons k0 ks ih =>
+    simp only [List.foldl_cons, ih, List.mem_cons]
+    by_cases hk : k ∈ ks
+    · simp [hk]
+    · by_cases h0 : k = k0
+      · subst h0; simp [hk, alGet_alDel_self]
+      · simp [hk, h0, alGet_alDel_ne m k0 k h0]
+
+theorem view_alModify (items : Items) (k k' : String) (f : Item → Item)
+    (hf : ∀ it, (f it).repr = it.repr) :
+    (alGet (alModify items k f) k').map vecOf = (alGet items k').map vecOf := by
+  induction items with
+  | nil => rfl
+  | cons e es ih =>
+    simp only [alGet, alModify, List.map_cons, List.find?_cons] at ih ⊢
+    by_cases he : (e.1 == k) = true
+    · simp only [he, ite_true]
+      by_cases hk' : (e.1 == k') = true
+      · simp [hk', vecOf, hf]
+      · simp only [hk']; exact ih
+    · simp only [he, Bool.false_eq_true, ite_false]
+      by_cases hk' : (e.1 == k') = true
+      · simp [hk']
+      · simp only [hk']; exact ih
+
+theorem alGet_foldl_alPut (inputs : List (String × List Int)) (m : Items) (k : String) :
+    (alGet (inputs.foldl (fun items e => alPut items e.1 (mkItem e.2 [])) m) k).map vecOf
+      = match inputs.reverse.find? (fun e => e.1 == k) with
+        | some e => some e.2
+        | none => (alGet m k).map vecOf := by
+  induction inputs generalizing m with
+  | nil => simp
+  | cons e es ih =>
+    simp only [List.foldl_cons, ih, List.reverse_cons, List.find?_append]
+    cases hf : es.reverse.find? (fun e => e.1 == k) with
+    | some x => simp
+    | none =>
+      simp only [Option.none_or, List.find?_cons, List.find?_nil]
+      by_cases hk : (e.1 == k) = true
+      · have : e.1 = k := by simpa using hk
+        subst this
+        simp [alGet_alPut_self, vecOf_mkItem]
+      · have hne : k ≠ e.1 := by
+          intro h; apply hk; rw [h]; simp
+        simp [hk, alGet_alPut_ne m e.1 k _ hne]
+
+/-- one operation, as seen through `get_embedding` -/
+theorem view_step (st : State) (op : Op) :
+    getDefault (step st op).1 = specStep (getDefault st) op := by
+  funext k
+  cases op with
+  | store key v =>
+    simp only [step, specStep]
+    split
+    · rfl
+    · simp only [getDefault]
+      by_cases hk : k = key
+      · subst hk; simp [alGet_alPut_self, vecOf_mkItem]
+      · simp [hk, alGet_alPut_ne _ key k _ hk]
+  | storeMeta key v md =>
+    simp only [step, specStep]
+    split
+    · rfl
+    · simp only [getDefault]
+      by_cases hk : k = key
+      · subst hk; simp [alGet_alPut_self, vecOf_mkItem]
+      · simp [hk, alGet_alPut_ne _ key k _ hk]
+  | delete key =>
+    simp only [step, specStep]
+    split
+    · simp only [getDefault]
+      by_cases hk : k = key
+      · subst hk; simp [alGet_alDel_self]
+      · simp [hk, alGet_alDel_ne _ key k hk]
+    · rename_i hh
+      simp only [getDefault]
+      by_cases hk : k = key
+      · subst hk
+        have : alHas st.dflt.items k = false := by simpa using hh
+        simp [alGet_none_of_not_has _ _ this]
+      · simp [hk]
+  | batchDelete keys =>
+    simp only [step, specStep, getDefault, alGet_foldl_alDel]
+    split <;> simp
+  | clear => simp [step, specStep, getDefault, alGet]
+  | batchStore inputs =>
+    simp only [step, specStep]
+    split
+    · rename_i he
+      have : inputs = [] := by simpa using he
+      subst this
+      simp
+    · split
+      · rfl
+      · simp only [getDefault]
+        exact alGet_foldl_alPut inputs st.dflt.items k
+  | updateMeta key md =>
+    simp only [step, specStep]
+    split
+    · exact view_alModify st.dflt.items key k (fun it => ⟨it.repr, mergeMeta it.md md⟩) (fun _ => rfl)
+    · rfl
+  | removeMetaField key field =>
+    simp only [step, specStep]
+    split
+    · exact view_alModify st.dflt.items key k (fun it => ⟨it.repr, alDel it.md field⟩) (fun _ => rfl)
+    · rfl
+  | build => simp only [step, specStep]; split <;> rfl
+  | createColl c cfg => simp only [step, specStep]; split <;> rfl
+  | dropColl c => simp only [step, specStep]; split <;> rfl
+  | cstore c key vec md =>
+    simp only [step, specStep]
+    split
+    · rfl
+    · split
+      · split <;> rfl
+      · rfl
+  | cdelete c key => simp only [step, specStep]; split <;> rfl
+  | cbuild c =>
+    simp only [step, specStep]
+    split
+    · rfl
+    · split <;> rfl
+  | invalidate c => cases c <;> rfl
+
+theorem view_run (ops : List Op) (st : State) :
+    getDefault (run st ops) = ops.foldl specStep (getDefault st) := by
+  induction ops generalizing st with
+  | nil => rfl
+  | cons op ops ih => simp only [run, List.foldl_cons, ih, view_step]
+
 end Neumann.Vec
